@@ -36,7 +36,7 @@ ASSUMPTIONS = [
 LEVEL_TEXT = ("generated-input search over compressed real-server-like messages; differential comparison of sender bytes and "
               "forwarded bytes under an independent decoder")
 LEVEL_NOTE = "trusts lib/ref_dns.py, lib/driver.py and Hypothesis' search"
-QUICK_N, THOROUGH_N = 90_000, 4_000_000
+QUICK_N, THOROUGH_N = 60_000, 4_000_000
 BUDGET_S = (150, 5400)
 
 _OPTS = None
